@@ -197,6 +197,7 @@ def obligations(ctx):
     ob.fallback_native = "e2n_c04_fixed_tx"
     ob.finish(agg)
     plutus_data_obligation(ctx)
+    witness_raw_parts_obligation(ctx)
 
 
 def plutus_data_obligation(ctx):
@@ -276,4 +277,103 @@ def plutus_data_obligation(ctx):
                 agg.stats["paths"] += E.stats["paths"]; agg.stats["feasibility_queries"] += E.stats["feasibility_queries"]; agg.stats["functions"] |= E.stats["functions"]
     if nok < 18:
         ob.fail("only %d of 18 decode scenarios reached Ok" % nok)
+    ob.finish(agg)
+
+
+WS_KEYS = {0: "vkeys", 1: "native_scripts", 2: "bootstraps", 3: "plutus_scripts_v1", 4: "plutus_data", 5: "redeemers", 6: "plutus_scripts_v2", 7: "plutus_scripts_v3"}
+
+
+def witness_raw_parts_obligation(ctx):
+    """Every witness-set field keeps its own original bytes: the byte-preserving decoder files the bytes captured for key k
+    under the raw part of key k (and nowhere else), and the serializer writes the raw part of key k under key k.
+    Token level; the capture helper returns an identity that is a function of the item it consumed."""
+    import itertools
+    P = ctx.P
+    ob = Obligation(ctx, "c04_e2_witness_set_raw_parts_keyed", "key subsets: each of the 8 keys alone, adjacent pairs, all 8; definite and indefinite map",
+                    ["serialization::witnesses::transaction_witnesses_set::deserialize", "serialization::witnesses::transaction_witnesses_set::serialize"], fallback_native="e2n_c04_fixed_tx")
+    agg = Engine(P)
+    U = agg.U
+    orig_of = z3.Function("orig_bytes_of_item", U, U)
+    rnames = P.struct_fields["TransactionWitnessSetRaw"]
+    keys = sorted(WS_KEYS)
+    subsets = [[k] for k in keys] + [[a, b] for a, b in zip(keys, keys[1:])] + [keys]
+    ndec = 0
+    for sub in subsets:
+        for indef in (False, True):
+            E = Engine(P, max_loop=len(sub) + 4)
+            CM.install(E, target="TransactionWitnessSet")
+            E.U = U
+            def dwob(E_, c, args):
+                d = VM.deref(E_, args[0])
+                tok = d.tokens[d.pos] if d.pos < len(d.tokens) else None
+                r = E_.force_arg(E_.call_value(args[1], [args[0]]))
+                if r.variant != "Ok":
+                    return r
+                ident = tok[1] if tok is not None and tok[0] == "item" else z3.FreshConst(U, "noitem")
+                return VEnum("Result", "Ok", [VStruct("()", [r.fields[0], VOpaque("orig", [], orig_of(ident))])])
+            E.extra_intrinsics[r"deserilized_with_orig_bytes"] = dwob
+            E.extra_intrinsics[r"(^|::)merge_option_plutus_list$"] = lambda E_, c, a: (a[0] if VM.deref(E_, a[1]).variant != "Some" else a[1])
+            items = {k: z3.Const("ws_item_%d" % k, U) for k in sub}
+            toks = [("map", None if indef else len(sub))]
+            for k in sub:
+                toks += [("uint", z3.IntVal(k)), ("item", items[k], "?")]
+            if indef:
+                toks.append(("special", "Break", None))
+            for o in E.explore("serialization::witnesses::transaction_witnesses_set::deserialize", lambda toks=toks: [R(CM.VDe(list(toks)), "raw"), VBool(True)], max_paths=60):
+                what = "decode keys %s (%s)" % (sub, "indefinite" if indef else "definite")
+                if o.kind != "return":
+                    ob.vc("%s: no panic (%s %s)" % (what, o.kind, o.msg[:80]), o.pc, z3.BoolVal(False)); continue
+                if o.value.variant != "Ok":
+                    ob.violation("%s: a well-formed witness set is refused" % what); continue
+                ndec += 1
+                E.enter(o)
+                rawp = VM.deref(E, o.value.fields[0].fields[1])
+                for k, fname in WS_KEYS.items():
+                    f = VM.deref(E, rawp.fields[rnames.index(fname)])
+                    if k in sub:
+                        if not (isinstance(f, VEnum) and f.variant == "Some"):
+                            ob.violation("%s: the original bytes of key %d are not kept in raw part %s" % (what, k, fname)); continue
+                        ob.vc("%s: raw part %s holds the bytes captured for key %d" % (what, fname, k), o.pc, E.as_u(f.fields[0]) == orig_of(items[k]))
+                    elif isinstance(f, VEnum) and f.variant == "Some":
+                        ob.violation("%s: raw part %s is filled although key %d is absent" % (what, fname, k))
+            agg.stats["paths"] += E.stats["paths"]; agg.stats["feasibility_queries"] += E.stats["feasibility_queries"]; agg.stats["functions"] |= E.stats["functions"]
+    if ndec < len(subsets) * 2:
+        ob.fail("only %d of %d decode scenarios reached Ok" % (ndec, len(subsets) * 2))
+    # ---- serializer: raw part k is written under key k
+    S = Engine(P, max_loop=12)
+    CM.install(S, target="TransactionWitnessSet")
+    S.U = U
+    S.extra_intrinsics[r"PlutusScripts::has_version$"] = lambda E_, c, a: VBool(True)
+    raws = {k: z3.Const("raw_part_%d" % k, U) for k in keys}
+    def mk():
+        none_or = {}
+        ws = S.mk_struct("TransactionWitnessSet", **{f: VEnum("Option", "Some", [VLazy("field_" + f, t)]) for f, t in
+                         (("vkeys", "Vkeywitnesses"), ("native_scripts", "NativeScripts"), ("bootstraps", "BootstrapWitnesses"), ("plutus_scripts", "PlutusScripts"), ("plutus_data", "PlutusList"), ("redeemers", "Redeemers"))})
+        rp = S.mk_struct("TransactionWitnessSetRaw", **{WS_KEYS[k]: VEnum("Option", "Some", [VOpaque("raw", [], raws[k])]) for k in keys})
+        return [R(ws, "wit_set"), VEnum("Option", "Some", [R(rp, "raw_parts")]), R(CM.VSer(), "ser")]
+    nser = 0
+    for o in S.explore("serialization::witnesses::transaction_witnesses_set::serialize", mk, max_paths=60):
+        if o.kind != "return" or o.value.variant != "Ok":
+            ob.vc("serializer with all raw parts present returns Ok (%s %s)" % (o.kind, o.msg[:80]), o.pc, z3.BoolVal(False)); continue
+        nser += 1
+        S.enter(o)
+        toks = VM.deref(S, o.args[2]).tokens
+        ent = CM.map_entries(toks)
+        if ent is None or CM.item_end(toks, 0) != len(toks):
+            ob.violation("serializer with raw parts: emitted map is malformed"); continue
+        seen = {}
+        for (ktok, vs, ve) in ent:
+            k = S.concretize(ktok[1]) if ktok[0] == "uint" else None
+            vt = toks[vs]
+            if k not in WS_KEYS:
+                ob.violation("serializer writes unknown key %s" % k); continue
+            if vt[0] != "raw":
+                ob.violation("serializer: key %d is re-encoded structurally although its original bytes are kept" % k); continue
+            seen[k] = True
+            ob.vc("serializer: key %d carries the raw part %s" % (k, WS_KEYS[k]), o.pc, vt[1] == raws[k])
+        if sorted(seen) != keys:
+            ob.violation("serializer with all raw parts present writes keys %s" % sorted(seen))
+    if nser == 0:
+        ob.fail("serializer: no Ok path")
+    agg.stats["paths"] += S.stats["paths"]; agg.stats["functions"] |= S.stats["functions"]
     ob.finish(agg)
